@@ -287,6 +287,13 @@ def r17_2(chk, mod, data, params):
                     if sig in seen:
                         continue
                     seen.add(sig)
+                    ka0 = key.as_atom()
+                    if ka0 and ka0[0] == "str":
+                        # a literal key (the deuterium special case looks up 'H'): it must be a key of the table, nothing is normalised
+                        nlook += 1
+                        chk.ob("R17.2", MOD, qual, f"the literal key {ka0[1]!r} is a key of {dname}", ka0[1] in keys[dname], node=e.node,
+                               fingerprint=f"literal-key:{dname}:{ka0[1]}")
+                        continue
                     chain = chain_from_any_root(key)
                     nlook += 1
                     if chain is None:
@@ -554,6 +561,9 @@ def r17_4(chk, mod, data, params):
                         ok = any((c.as_atom() or ("",))[0] in ("in", "notin") and
                                  ((c.as_atom()[0] == "in") == pol) and c.as_atom()[1].key() == key.key()
                                  and c.as_atom()[2].key() == tab.key() for c, pol in e.guards)
+                        lit_key = key.as_atom() and key.as_atom()[0] == "str"
+                        if lit_key:
+                            ok = True            # a literal key: its membership is a fact about the table (R17.2 literal-key)
                         what = f"Element(*{tab}[k]) is returned only under a membership guard on the same key k"
                         # ... and k is the text the caller gave, normalised and nothing else: the whole leading letter run of a label,
                         # the stripped and capitalised string (D read as H) for a symbol, its lower case for a name
@@ -564,6 +574,9 @@ def r17_4(chk, mod, data, params):
                             K = f"{s0}.strip().capitalize()"
                             D = f"(ite (eq 'D' {K}) 'H' {K})"
                             canon = {K, D, f"{K}.lower()", f"{D}.lower()", f"{s0}.strip().lower()"}
+                        if lit_key:
+                            # the only literal row: deuterium is written as hydrogen, under the test that the symbol is 'D'
+                            canon = {key.key()} if key.as_atom()[1] == "H" and any(pol and c.key() in (f"(eq 'D' {K})", f"(eq {K} 'D')") for c, pol in e.guards) else set()
                         chk.ob("R17.4", MOD, q, f"the key looked up in {tab} is the caller's text in its normal form (whole letter run / strip + capitalize, "
                                "lower case for names), not a part or a rewriting of it", key.key() in canon, node=e.node,
                                fingerprint=f"key-form:{tab}:{cn}", expected=sorted(canon)[0], found=str(key)[:140])
@@ -737,7 +750,7 @@ def _interp_bool(fn: ast.FunctionDef, env):
 
 
 def r17_6(chk, mod):
-    fn = mod.func("Element.__lt__")
+    fn = mod.expanded("Element.__lt__", mod.func("Element.__lt__"))      # a helper the comparison was moved into is read in place
     chk.saw(MOD, "Element.__lt__")
     consts = sorted({n.value for n in ast.walk(fn) if isinstance(n, ast.Constant) and isinstance(n.value, int)
                      and not isinstance(n.value, bool)} | {6})
@@ -812,7 +825,7 @@ def r17_7(chk, mod, params, nrows=103):
         okn += ok
         chk.ob("R17.7", MOD, q, "a count is printed exactly when it is greater than one", ok,
                fingerprint=f"threshold:{P.atom(cond)}", found=str(P.atom(a)))
-    chk.need(len(thresholds) >= 2, "chemical_formula: expected two count-formatting branches")
+    chk.need(len(thresholds) >= 1, "chemical_formula: no count-formatting branch found")
     # callers: every formula in the library comes from this one implementation
     for rel, qq in (("core/molecule.py", "Molecule.molecular_formula"), ("crystal/asymmetric_unit.py", "AsymmetricUnit.formula")):
         m2 = chk.repo.module(rel)
